@@ -173,7 +173,9 @@ func RunOp(t *zzsimrt.Task, op, path string, data []byte, budget int64) string {
 	if i := strings.LastIndexByte(path, '/'); i > 0 {
 		out = strings.ReplaceAll(out, path[:i+1], "<disk>/")
 	}
-	return out
+	// results travel between processes as JSON strings, which cannot carry invalid UTF-8
+	// (an error text may quote raw bytes of the file): one spelling on both sides
+	return strings.ToValidUTF8(out, "\uFFFD")
 }
 
 func res(v interface{}, warnings interface{}, err error) string {
